@@ -31,7 +31,9 @@ try:
     demo = os.path.abspath(os.path.join(a.src, "demo.py"))
     shutil.copy2(demo, os.path.join(wt, "_seed_demo.py"))
     def run_demo():
-        r = subprocess.run(["/venv/bin/python", "-W", "ignore", "_seed_demo.py"], cwd=wt, env=env, capture_output=True, text=True, timeout=1800)
+        import signal
+        r = subprocess.run(["/venv/bin/python", "-W", "ignore", "_seed_demo.py"], cwd=wt, env=env, capture_output=True, text=True, timeout=1800,
+                           preexec_fn=lambda: signal.signal(signal.SIGINT, signal.default_int_handler))
         return r.returncode, (r.stdout + r.stderr).strip().split("\n")[-1][:200]
     rc0, out0 = run_demo()
     res["demo_unpatched"] = {"exit": rc0, "last_line": out0}
